@@ -32,7 +32,7 @@ Definition leaf_size_guard (l : leaf) : bool :=
   | LUuidTfrf _ _ cnt es => cnt <=? lenN es
   | LUuidSenc _ cnt raw rs np => rs =? 16 + (if senc_keeps np cnt rs then lenN raw else 0)
   | LUuidUnk u _ => lenN u =? 16
-  | LSgpd v _ gt dlen _ items _ =>
+  | LSgpd v _ gt dlen _ items =>
       (lenN gt =? 4) && forallb (fun it => lenN (wr_sge (snd it) 0) =? fst it) items &&
       ((dlen =? 0) || forallb (fun it => fst it =? dlen) items) && ((1 <=? v) || (lenN items =? 0))
   | _ => true
